@@ -21,6 +21,7 @@
 From Tx Require Import Lib.Base Gen.Generated Model.Router Spec.MatchSpec.
 From Tx Require Import Proofs.RouterProofs Proofs.RuleTextProofs.
 From Tx Require Import Spec.DaemonSpec Model.ClientMatch Proofs.ClientMatchProofs.
+From Tx Require Import Model.AsyncMatch Proofs.AsyncMatchProofs.
 From Coq Require Import Permutation.
 Local Open Scope N_scope.
 
@@ -206,6 +207,46 @@ Example C12_client_catch_all_nonvacuous :
       OCDeleted [] (Err EKey); OCDeleted [WRemove []] (Ok tt);
       OCSignal false [] ].
 Proof. exact w_catch_all_ok. Qed.
+
+(* The proxy layer with the daemon answering LATER (Model/AsyncMatch.v: the
+   AddMatch / RemoveMatch calls wait in a queue, `XAnswer` lets the reference
+   daemon take the oldest one and delivers its reply).
+   cancelSignalNotification is idempotent per id: whatever is pending, a
+   second cancel of the same id writes nothing and changes nothing. *)
+Theorem C12_proxy_cancel_idempotent :
+  forall prule declared s id,
+    let s1 := fst (astep prule declared s (XCancel id)) in
+    wrote (snd (astep prule declared s1 (XCancel id))) = [] /\
+    fst (astep prule declared s1 (XCancel id)) = s1.
+Proof. exact cancel_idempotent. Qed.
+
+(* For ALL histories of notifyOnSignal / cancelSignalNotification (any id,
+   repeated, before or after the replies) / answers / signals, in any order:
+   the daemon holds, with multiplicity, exactly the texts of the client's
+   match_rules; at most one RemoveMatch per rule id is in flight and it is
+   for a rule still in match_rules (so it is never refused); a subscribed id
+   is in match_rules and has no RemoveMatch in flight. *)
+Theorem C12_proxy_daemon_agree :
+  forall prule declared h,
+    good_rule prule -> registrable prule = true -> Forall proxy_event h ->
+    let s := arun prule declared h in
+    Permutation (a_daemon s) (map snd (cl_texts (a_client s))) /\
+    NoDup (pdel_ids (a_pending s)) /\
+    (forall i t, In (PDel i t) (a_pending s) -> alist_get Nat.eqb i (cl_texts (a_client s)) = Some t) /\
+    (forall i, In i (a_subs s) -> In i (map fst (cl_texts (a_client s))) /\ ~ In i (pdel_ids (a_pending s))).
+Proof. exact proxy_daemon_agree_stmt. Qed.
+
+(* non-vacuity: two subscriptions to one signal, the first cancelled twice
+   before the reply: one RemoveMatch is written, the daemon keeps one
+   instance and the second subscription is served *)
+Example C12_proxy_cancel_twice_nonvacuous :
+  Forall proxy_event w_cancel_twice /\ good_rule w_prule /\ registrable w_prule = true /\
+  atrace w_prule None w_cancel_twice =
+    [ OWrote [WAdd w_ptext] (Ok tt); OWrote [WAdd w_ptext] (Ok tt); OAnsAdd (Ok 0%nat); OAnsAdd (Ok 1%nat);
+      OWrote [WRemove w_ptext] (Ok tt); OWrote [] (Ok tt); OAnsDel (Ok tt); OAnsNone;
+      OASignal true [(1%nat, 2)] ] /\
+  a_daemon (arun w_prule None w_cancel_twice) = [w_ptext].
+Proof. exact w_cancel_twice_ok. Qed.
 
 (* The matcher of the pinned commit did not satisfy C12_match_iff: one
    witness per defect (D16 type ignored, D17 namespace sibling, D18 no body,
